@@ -413,17 +413,20 @@ async def _drive(case: dict, script: Script) -> dict:
         exc = task.exception() if not task.cancelled() else None
         res["server_exc"] = exc if exc is not None else RuntimeError("serving task ended")
     else:
-        if case["sut"] == "highlevel":
-            await srv.shutdown()
-            await task
-            await srv.server_close()
-        else:
-            task.cancel()
-            try:
+        try:
+            if case["sut"] == "highlevel":
+                await srv.shutdown()
                 await task
-            except asyncio.CancelledError:
-                pass
-            await server.aclose()
+                await srv.server_close()
+            else:
+                task.cancel()
+                try:
+                    await task
+                except asyncio.CancelledError:
+                    pass
+                await server.aclose()
+        except Exception as exc:  # judged after the log comparison
+            res["teardown_exc"] = exc
     res["final_logs"] = [list(lg) for lg in script.logs]
     res["max_active"] = list(script.max_active)
     res["active_after"] = list(script.active)
@@ -442,6 +445,20 @@ def _flatten_exc(exc: BaseException) -> list[BaseException]:
             out.extend(_flatten_exc(e))
         return out
     return [exc]
+
+
+def _judge_teardown(res: dict, info: dict) -> None:
+    exc = res.get("teardown_exc")
+    if exc is None:
+        return
+    from ..core import exception_from_sut, format_exc
+
+    leaves = _flatten_exc(exc)
+    if not any(exception_from_sut(e) for e in leaves):
+        raise HarnessError(f"teardown failed in the harness: {[repr(e) for e in leaves]}")
+    raise Violation(
+        "teardown-exception", f"stopping the quiescent server raised {[repr(e) for e in leaves][:3]}", traceback=format_exc(leaves[0]), **info
+    )
 
 
 def run_case(case: dict) -> Outcome:
@@ -514,6 +531,8 @@ def run_case(case: dict) -> Outcome:
         if res["active_after"][a] != 0:
             raise Violation("finalisation", f"address #{a}: a generator is still active after teardown", address=a, **info)
 
+    _judge_teardown(res, info)
+
     # responses: per address, in order
     entry = zoo.build(SPEC)
     protocol = entry.datagram_protocol()
@@ -576,8 +595,8 @@ CHECK = Check(
         "non-trivial = a datagram arrives while that client's generator is active or in the very tick it finishes; distinct = sha1"
     ),
     layers=[
-        Layer("lowlevel", _strategy("lowlevel"), run_case, {"quick": 1500, "thorough": 12000}),
-        Layer("highlevel", _strategy("highlevel"), run_case, {"quick": 1500, "thorough": 12000}),
+        Layer("lowlevel", _strategy("lowlevel"), run_case, {"quick": 1200, "thorough": 10000}),
+        Layer("highlevel", _strategy("highlevel"), run_case, {"quick": 1200, "thorough": 10000}),
     ],
     assumptions=[
         "the in-memory listener starts one task per datagram in arrival order (mirrors datagram/listener.py); ordering inside the kernel "
